@@ -483,6 +483,15 @@ Theorem C10_requires_if_chain_before_fix :
 Proof. exact requires_if_chain_before_fix. Qed.
 Print Assumptions C10_requires_if_chain_before_fix.
 
+(** the repair only removes demands: whatever the repaired unrolling returns the pre-repair one returned too, for every
+    command, predicate test and root -- the repaired validator never asks for an id the unrepaired one did not *)
+Theorem C10_unroll_fixed_incl_before_fix : forall c func root out out0,
+  unroll_arg_requires c func root = Some out ->
+  unroll_arg_requires_before_fix c func root = Some out0 ->
+  incl out out0.
+Proof. exact unroll_fixed_incl_before_fix. Qed.
+Print Assumptions C10_unroll_fixed_incl_before_fix.
+
 (** the same inputs on the repaired model: `--aa v --bb w` accepted, `--aa z --bb w` accepted,
     `--aa z --bb v` MissingRequiredArgument(y) (the documented behaviour of [requires_if]) *)
 Theorem C10_requires_if_chain_fixed :
